@@ -277,7 +277,7 @@ def run(ctx):
   qtr = [int(q['float_bind_kids'])]
   ctx.extra['quirk_flags_from_witness_replay'] = q
   import time
-  P = dict(limit=ctx.scale(60, 400), nwork=ctx.scale(8, 14), ncwork=ctx.scale(3, 4), ncorr=ctx.scale(12, 30), nseeds=ctx.scale(3, 20),
+  P = dict(limit=ctx.scale(100, 400), nwork=ctx.scale(8, 14), ncwork=ctx.scale(3, 4), ncorr=ctx.scale(12, 30), nseeds=ctx.scale(3, 20),
            deadline=time.time() + ctx.scale(70, 1100))
   ctx.extra['per_spec_parameters'] = {k: v for k, v in P.items() if k != 'deadline'}
   # ---- specifications ---------------------------------------------------------------------------
@@ -290,8 +290,10 @@ def run(ctx):
     chosen_small = small2 + [small3[i] for i in sorted(rng.sample(range(len(small3)), 2500))]
     ctx.extra['small_scope']['swept'] = 'every spec with <= 2 decision points (exhaustive) + a seeded sample of 2500 of the 3-point specs'
   else:
-    chosen_small = [small2[i] for i in sorted(rng.sample(range(len(small2)), 40))] + [small3[i] for i in sorted(rng.sample(range(len(small3)), 25))]
-    ctx.extra['small_scope']['swept'] = 'seeded sample: 40 specs with <= 2 points, 25 with 3 points'
+    small1 = [s for s in small2 if G.count_points(s) <= 1]          # every (n, k, distinct, sorted) mode of one decision point: always swept
+    small2b = [s for s in small2 if G.count_points(s) == 2]
+    chosen_small = small1 + [small2b[i] for i in sorted(rng.sample(range(len(small2b)), 28))] + [small3[i] for i in sorted(rng.sample(range(len(small3)), 22))]
+    ctx.extra['small_scope']['swept'] = 'all %d specs with <= 1 decision point (every n x k x distinct x sorted mode) + seeded sample: 28 specs with 2 points, 22 with 3 points' % len(small1)
   rand_specs = []
   for i in range(ctx.scale(25, 1200)):
     fin = rng.random() < 0.6
